@@ -433,12 +433,14 @@ pub fn main(args: &Args) -> ! {
             }
         }
     }
+    // client side: which Retry packets are followed (probe machinery shared with C04)
+    crate::checks::c04::retry_probe_part(&mut rep, base, thorough, dl);
     rep.sample(json!({"kind":"NewToken","alter":"None","from":"SameIpOtherPort","after_s":0,"twice":true,"meaning":"the genuine NEW_TOKEN token is presented from the same IP but another port: validated the first time, treated as absent the second time"}));
     rep.sample(json!({"kind":"Retry","alter":"Flip(77)","from":"Same","after_s":0,"meaning":"bit 77 of the genuine Retry token is flipped: it must be treated as absent (unvalidated Incoming that may be retried), not as valid and not as INVALID_TOKEN"}));
     rep.assumptions = vec![
         "token AEAD is the real ring-based one shipped in quinn-proto; the handshake around it uses model TLS".into(),
         "token issue times have one-second resolution, so the exact lifetime boundary is probed at lifetime-1 s and lifetime+2 s".into(),
-        "Retry integrity-tag alterations are enumerated under C04".into(),
+        "forged Retry packets are built with the public Retry integrity key against the connection ID the client is using at that moment".into(),
     ];
     let _ = SocketAddr::from(([0, 0, 0, 0], 0));
     rep.finish()
@@ -452,6 +454,9 @@ fn replay(args: &Args) -> ! {
         std::process::exit(0)
     }
     let r = &v["replay"];
+    if r["kind"].as_str() == Some("probe") {
+        crate::checks::c04::replay(args);
+    }
     let nums = |s: &str| -> usize { s.chars().filter(|c| c.is_ascii_digit()).collect::<String>().parse().unwrap_or(0) };
     let a = r["alter"].as_str().unwrap_or("None");
     let alter = if a.starts_with("Flip") { Alter::Flip(nums(a)) } else if a.starts_with("Truncate") { Alter::Truncate(nums(a)) } else if a.starts_with("Splice") { Alter::Splice(nums(a)) } else if a == "Extend" { Alter::Extend } else if a == "Empty" { Alter::Empty } else { Alter::None };
